@@ -373,12 +373,15 @@ class CuckooFilter:
         # and move things around to the other index, if possible, until we
         # either move everything around or hit the maximum number of swaps
         idx = random.choice([idx_1, idx_2])
+        original = fingerprint
+        swaps = []  # (bucket, slot, evicted fingerprint) so that a failed insertion can be undone
 
         for _ in range(self.max_swaps):
             # select one element to be swapped out...
             swap_elm = random.randint(0, self.bucket_size - 1)
 
             swb = self.buckets[idx][swap_elm]
+            swaps.append((idx, swap_elm, swb))
             fingerprint, self.buckets[idx][swap_elm] = swb, fingerprint
 
             # now find another place to put this fingerprint
@@ -390,8 +393,11 @@ class CuckooFilter:
                 self._inserted_elements += 1
                 return None
 
-        # if we got here we have an error... we might need to know what is left
-        return fingerprint
+        # if we got here we have an error... put every evicted fingerprint back so that
+        # nothing already stored is lost, and hand back the fingerprint that could not be inserted
+        for b_idx, slot, evicted in reversed(swaps):
+            self.buckets[b_idx][slot] = evicted
+        return original
 
     def _load(self, file: Union[Path, str, IOBase, mmap, bytes]) -> None:
         """load a cuckoo filter from file"""
